@@ -301,6 +301,12 @@ type Fmt struct {
 }
 
 func (f Fmt) Render() string {
+	a, b, c := f.parts()
+	return a + b + c
+}
+
+// parts splits the sample amount into (before symbol, symbol, after symbol).
+func (f Fmt) parts() (string, string, string) {
 	ip := "1000"
 	if f.Group != "" {
 		ip = "1" + f.Group + "000"
@@ -313,15 +319,29 @@ func (f Fmt) Render() string {
 	}
 	sym := SymText(f.Sym)
 	if f.Sym == "" {
-		return num
+		return num, "", ""
 	}
 	if f.Left {
 		if f.Space {
-			return sym + " " + num
+			return "", sym, " " + num
 		}
-		return sym + num
+		return "", sym, num
 	}
-	return num + " " + sym
+	return num + " ", sym, ""
+}
+
+// renderFmt writes a format sample and records the span of the whole sample
+// ("format") and of the commodity symbol inside it ("fmt.commodity").
+func renderFmt(b *lineBuf, f *Fmt) {
+	st := U16Len(b.cur.String())
+	a, sym, c := f.parts()
+	b.w(a)
+	if sym != "" {
+		b.span("fmt.commodity", sym)
+	}
+	b.w(c)
+	full := a + sym + c
+	b.r.Spans = append(b.r.Spans, Span{Kind: "format", Line: b.line, S: st, E: st + U16Len(full), Text: full, Entry: b.entry, Post: b.post})
 }
 
 type Directive struct {
@@ -575,7 +595,7 @@ func renderDirective(r *Rendered, d *Directive, ei int, line *int, emit func(*li
 		b.span("keyword", "commodity")
 		b.w(" ")
 		if d.Fmt != nil {
-			b.span("format", d.Fmt.Render())
+			renderFmt(b, d.Fmt)
 			if NeedsQuote(d.Fmt.Sym) {
 				feats["commodity.quoted"] = true
 			}
@@ -598,7 +618,7 @@ func renderDirective(r *Rendered, d *Directive, ei int, line *int, emit func(*li
 		b2.w(d.Indent)
 		b2.span("keyword", "format")
 		b2.w(" ")
-		b2.span("format", d.Fmt.Render())
+		renderFmt(b2, d.Fmt)
 		emit(b2, LineInfo{"subdirective", ei, -1})
 	case "include":
 		b.span("keyword", "include")
@@ -625,7 +645,7 @@ func renderDirective(r *Rendered, d *Directive, ei int, line *int, emit func(*li
 	case "D":
 		b.span("keyword", "D")
 		b.w(" ")
-		b.span("format", d.Fmt.Render())
+		renderFmt(b, d.Fmt)
 		if NeedsQuote(d.Fmt.Sym) {
 			feats["commodity.quoted"] = true
 		}
